@@ -109,6 +109,42 @@ def chiaverini_hughes(chk, prog):
         chk.ob("INVERT", f.ref + "::Nx3x3", "E(%s(E(Q))[i]) == E(Q[i]) (Nx3x3 arm)" % name, batch, construct="inversion Nx3x3", **kw)
 
 
+SAMPLES = {
+    "generic": (0.3, -0.4, 0.5),
+    "dominant x": (0.85, 0.2, -0.3), "dominant y": (-0.25, 0.85, 0.3), "dominant z": (0.25, -0.3, -0.85),
+    "near half-turn, negative leading axis component": (-0.8, 0.36, None),        # z completes the unit vector for w = 5e-5
+    "near identity": (1e-4, -2e-4, 1.5e-4),
+}
+
+
+def sample_arms(chk, prog, names=("shepperd", "hughes", "chiaverini", "sarabandi")):
+    """INVERT.sample: each method, run on E(q) along the single decision path that a sample rotation takes (dominant component, almost a half-turn with a negative
+    leading axis component, almost the identity ...), returns a quaternion whose matrix is E(q) -- as exact closed forms of that path.  Whatever thresholds and
+    pivots the code uses, the arm a realistic rotation of each kind reaches is decided."""
+    from sa.lib import sample_oracle
+    import math
+    q = unit_syms("sq")
+    R = E_ref(q)
+    for name in names:
+        f = prog.func(ORI + "::" + name)
+        chk.touch(f)
+        for label, (x_, y_, z_) in SAMPLES.items():
+            if z_ is None:
+                w_ = 5e-5
+                z_ = math.sqrt(max(0.0, 1 - w_ * w_ - x_ * x_ - y_ * y_))
+            else:
+                w_ = math.sqrt(1 - x_ * x_ - y_ * y_ - z_ * z_)
+            if name in ("hughes", "chiaverini", "sarabandi") and label.startswith("near half-turn") and name != "sarabandi":
+                pass
+            vals = {"sqw": w_, "sqx": x_, "sqy": y_, "sqz": z_}
+
+            def law(f=f, vals=vals, name=name, label=label):
+                out = Interp(prog, oracle=sample_oracle(vals)).run(f, [R.copy()])
+                return inverts(out, q, "%s [%s]" % (name, label))
+            chk.ob("INVERT.sample", "%s::%s" % (f.ref, label), "E(%s(E(q))) == E(q) on the path taken by a rotation that is %s" % (name, label), law,
+                   module=ORI, function=name, construct="inversion on the arm of a sample rotation [%s]" % label, line=f.node.lineno)
+
+
 def gate_bands(chk, prog, pid="C02", names=("hughes", "chiaverini"), limit_pi=1e-6, limit_0=1e-12):
     """BAND.gate: every np.isclose/np.allclose gate met by the closed-form methods on E(q), mapped to the rotation-angle band it captures.
     A gate closing at the half-turn may only capture angles beyond the stated domain (pi - 1e-6); one closing at the identity must be (almost) empty."""
@@ -299,6 +335,7 @@ def run(chk, prog, tier):
     shepperd(chk, prog)
     chiaverini_hughes(chk, prog)
     gate_bands(chk, prog)
+    sample_arms(chk, prog)
     # the four threshold tests d? > eta; the fifth comparison (q[0] > 0) is decided generically: q[0] = |w| > 0
     all16 = list(itertools.product((True, False), repeat=4))
     quick = [(True, True, True, True), (False, True, True, True), (True, False, False, False), (False, False, False, False), (False, True, False, True), (True, True, False, False)]
